@@ -384,11 +384,14 @@ def repeat(ops, nrep=None, **mapping):
             repetition.append(repeat(ops, nnext, **_mapping))
         else:
             # map expressions
-            repetition.append([])
-            for op in ops:
+            def _map(op):
+                if isinstance(op, (list, tuple)):
+                    return [_map(item) for item in op]
                 if isinstance(op, VirtualOperator):
-                    op = op.map(_mapping)
-                repetition[-1].append(op)
+                    return op.map(_mapping)
+                return op
+
+            repetition.append([_map(op) for op in ops])
     return repetition
 
 
